@@ -167,8 +167,7 @@ class DirectivesC(InputCoercer):
             e = V.Obj(fresh('ecls', IntS), fresh('eref', IntS))
             return en.branches(st, [(z3.Not(SI.Dir_raises(f, v)), SI.Dir_val(f, v)),
                                     (z3.And(SI.Dir_raises(f, v), en.is_instance_of(e, 'Exception'), z3.Not(en.is_instance_of(e, 'MultipleException'))), Raise(e)),
-                                    (z3.And(SI.Dir_raises(f, v), exact(e, 'MultipleException'), V.oref(e) >= 0, V.is_List(attr0(e, 'exceptions')),
-                                            z3.Not(VL.is_nil(V.items(attr0(e, 'exceptions'))))), Raise(e))])
+                                    (z3.And(SI.Dir_raises(f, v), exact(e, 'MultipleException'), V.oref(e) >= 0, exc_full_wf(e)), Raise(e))])
         return super().call_model(en, st, f, a, kw)
 
 
